@@ -1,2 +1,483 @@
 //! Structure-aware value generators shared by the workloads.
 #![allow(dead_code)]
+
+use crate::common::Rng;
+use opcua::types::*;
+use std::io::Read;
+
+pub const INTERESTING_STR: &[&str] = &[
+    "",
+    "a",
+    "Hello world",
+    "ns=1;s=x",
+    "héllo wörld",
+    "日本語テキスト",
+    "😀 emoji 🎉",
+    " leading and trailing ",
+    "line\nbreak\ttab",
+    "quote\"s and 'apostrophes'",
+    "& / . < > : # ! % _ [ ] ^ \\",
+    "null",
+    "~",
+    "0123456789",
+    "\u{0}",
+    "\u{feff}bom",
+];
+
+pub fn string(rng: &mut Rng, max_len: usize) -> String {
+    match rng.below(10) {
+        0..=2 => rng.pick(INTERESTING_STR).to_string(),
+        3..=5 => {
+            let n = rng.usize(max_len.min(12) + 1);
+            (0..n).map(|_| (b'a' + rng.below(26) as u8) as char).collect()
+        }
+        6 => {
+            let n = rng.usize(max_len + 1);
+            (0..n).map(|_| (0x20 + rng.below(0x5f) as u8) as char).collect()
+        }
+        7 => {
+            // arbitrary unicode scalar values
+            let n = rng.usize(max_len.min(16) + 1);
+            (0..n)
+                .map(|_| loop {
+                    let c = match rng.below(4) {
+                        0 => rng.below(0x80) as u32,
+                        1 => rng.below(0x800) as u32,
+                        2 => rng.below(0x10000) as u32,
+                        _ => rng.below(0x110000) as u32,
+                    };
+                    if let Some(c) = char::from_u32(c) {
+                        break c;
+                    }
+                })
+                .collect()
+        }
+        _ => {
+            let n = rng.usize(max_len.min(40) + 1);
+            let alpha = "abcXYZ019 _-.:/&<>#!%[]^\\éß漢";
+            let chars: Vec<char> = alpha.chars().collect();
+            (0..n).map(|_| *rng.pick(&chars)).collect()
+        }
+    }
+}
+
+pub fn ua_string(rng: &mut Rng, max_len: usize) -> UAString {
+    if rng.chance(1, 8) {
+        UAString::null()
+    } else {
+        UAString::from(string(rng, max_len))
+    }
+}
+
+pub fn non_empty_string(rng: &mut Rng, max_len: usize) -> String {
+    loop {
+        let s = string(rng, max_len);
+        if !s.is_empty() {
+            return s;
+        }
+    }
+}
+
+pub fn byte_string(rng: &mut Rng, max_len: usize) -> ByteString {
+    match rng.below(8) {
+        0 => ByteString::null(),
+        1 => ByteString::from(Vec::<u8>::new()),
+        2 => ByteString::from(vec![0u8; rng.usize(max_len + 1)]),
+        _ => {
+            let n = rng.usize(max_len + 1);
+            ByteString::from(rng.bytes(n))
+        }
+    }
+}
+
+pub fn guid(rng: &mut Rng) -> Guid {
+    match rng.below(6) {
+        0 => Guid::null(),
+        1 => Guid::from_bytes([0xff; 16]),
+        _ => {
+            let b = rng.bytes(16);
+            let mut a = [0u8; 16];
+            a.copy_from_slice(&b);
+            Guid::from_bytes(a)
+        }
+    }
+}
+
+/// Ticks (100ns since 1601) inside the representable range, with boundary emphasis
+pub fn date_time_ticks(rng: &mut Rng) -> i64 {
+    let end = DateTime::endtimes_ticks();
+    match rng.below(10) {
+        0 => 0,
+        1 => 1,
+        2 => end,
+        3 => end - 1,
+        4 => DateTime::now().ticks(),
+        5 => rng.range(0, 10_000_000),
+        _ => rng.range(0, end),
+    }
+}
+
+pub fn date_time(rng: &mut Rng) -> DateTime {
+    DateTime::from(date_time_ticks(rng))
+}
+
+pub fn status_code(rng: &mut Rng) -> StatusCode {
+    match rng.below(6) {
+        0 => StatusCode::Good,
+        1 => StatusCode::BadUnexpectedError,
+        2 => StatusCode::UncertainLastUsableValue,
+        3 => StatusCode::BadTimeout,
+        _ => StatusCode::from_bits_truncate(rng.next_u32()),
+    }
+}
+
+pub fn ns_index(rng: &mut Rng) -> u16 {
+    match rng.below(8) {
+        0 => 0,
+        1 => 1,
+        2 => 2,
+        3 => *rng.pick(&[9u16, 10, 99, 100, 255, 256, 65534, 65535]),
+        _ => rng.next_u32() as u16,
+    }
+}
+
+pub fn node_id(rng: &mut Rng) -> NodeId {
+    let ns = ns_index(rng);
+    match rng.below(8) {
+        0 => NodeId::null(),
+        1 => NodeId::new(ns, rng.below(256) as u32),
+        2 => NodeId::new(ns, rng.below(65536) as u32),
+        3 => NodeId::new(ns, rng.next_u32()),
+        4 => NodeId::new(ns, ua_string(rng, 20)),
+        5 => NodeId::new(ns, guid(rng)),
+        6 => NodeId::new(ns, byte_string(rng, 20)),
+        _ => NodeId::new(0, rng.below(20000) as u32),
+    }
+}
+
+pub fn expanded_node_id(rng: &mut Rng) -> ExpandedNodeId {
+    ExpandedNodeId {
+        node_id: node_id(rng),
+        namespace_uri: if rng.chance(1, 3) {
+            UAString::from(non_empty_string(rng, 20))
+        } else {
+            UAString::null()
+        },
+        server_index: if rng.chance(1, 3) {
+            match rng.below(3) {
+                0 => 1,
+                1 => u32::MAX,
+                _ => rng.next_u32(),
+            }
+        } else {
+            0
+        },
+    }
+}
+
+pub fn qualified_name(rng: &mut Rng) -> QualifiedName {
+    QualifiedName {
+        namespace_index: ns_index(rng),
+        name: ua_string(rng, 20),
+    }
+}
+
+pub fn localized_text(rng: &mut Rng) -> LocalizedText {
+    LocalizedText {
+        locale: if rng.bool() {
+            UAString::null()
+        } else {
+            UAString::from(*rng.pick(&["", "en", "en-US", "de", "zh-Hans"]))
+        },
+        text: ua_string(rng, 30),
+    }
+}
+
+pub fn extension_object(rng: &mut Rng, depth: u32) -> ExtensionObject {
+    match rng.below(5) {
+        0 => ExtensionObject::null(),
+        1 => ExtensionObject {
+            node_id: node_id(rng),
+            body: ExtensionObjectEncoding::None,
+        },
+        2 => ExtensionObject {
+            node_id: node_id(rng),
+            body: ExtensionObjectEncoding::XmlElement(ua_string(rng, 30)),
+        },
+        3 if depth > 0 => {
+            // a real encodable body
+            let v = variant(rng, depth - 1);
+            ExtensionObject {
+                node_id: node_id(rng),
+                body: ExtensionObjectEncoding::ByteString(ByteString::from(v.encode_to_vec())),
+            }
+        }
+        _ => ExtensionObject {
+            node_id: node_id(rng),
+            body: ExtensionObjectEncoding::ByteString(byte_string(rng, 40)),
+        },
+    }
+}
+
+pub fn diagnostic_info(rng: &mut Rng, depth: u32) -> DiagnosticInfo {
+    let opt_i32 = |rng: &mut Rng| if rng.bool() { Some(rng.next_u32() as i32) } else { None };
+    DiagnosticInfo {
+        symbolic_id: opt_i32(rng),
+        namespace_uri: opt_i32(rng),
+        locale: opt_i32(rng),
+        localized_text: opt_i32(rng),
+        additional_info: if rng.bool() { Some(ua_string(rng, 20)) } else { None },
+        inner_status_code: if rng.bool() { Some(status_code(rng)) } else { None },
+        inner_diagnostic_info: if depth > 0 && rng.chance(1, 3) {
+            Some(Box::new(diagnostic_info(rng, depth - 1)))
+        } else {
+            None
+        },
+    }
+}
+
+pub fn data_value(rng: &mut Rng, depth: u32) -> DataValue {
+    DataValue {
+        value: if rng.chance(3, 4) { Some(variant(rng, depth)) } else { None },
+        status: if rng.bool() { Some(status_code(rng)) } else { None },
+        source_timestamp: if rng.bool() { Some(date_time(rng)) } else { None },
+        source_picoseconds: if rng.bool() { Some(rng.next_u32() as u16) } else { None },
+        server_timestamp: if rng.bool() { Some(date_time(rng)) } else { None },
+        server_picoseconds: if rng.bool() { Some(rng.next_u32() as u16) } else { None },
+    }
+}
+
+pub fn f64_interesting(rng: &mut Rng) -> f64 {
+    match rng.below(12) {
+        0 => 0.0,
+        1 => -0.0,
+        2 => f64::NAN,
+        3 => f64::INFINITY,
+        4 => f64::NEG_INFINITY,
+        5 => f64::MIN_POSITIVE / 2.0,
+        6 => f64::MAX,
+        7 => f64::MIN,
+        8 => rng.range(-1000, 1000) as f64 + 0.5,
+        9 => f64::from_bits(rng.next_u64()),
+        _ => (rng.f64_unit() - 0.5) * 10f64.powi(rng.range(-5, 20) as i32),
+    }
+}
+
+pub fn f32_interesting(rng: &mut Rng) -> f32 {
+    match rng.below(10) {
+        0 => 0.0,
+        1 => -0.0,
+        2 => f32::NAN,
+        3 => f32::INFINITY,
+        4 => f32::NEG_INFINITY,
+        5 => f32::MAX,
+        6 => f32::MIN,
+        7 => f32::from_bits(rng.next_u32()),
+        _ => ((rng.f64_unit() - 0.5) * 10f64.powi(rng.range(-5, 12) as i32)) as f32,
+    }
+}
+
+macro_rules! int_interesting {
+    ($name:ident, $t:ty) => {
+        pub fn $name(rng: &mut Rng) -> $t {
+            match rng.below(8) {
+                0 => <$t>::MIN,
+                1 => <$t>::MAX,
+                2 => 0 as $t,
+                3 => 1 as $t,
+                4 => <$t>::MAX - 1,
+                5 => <$t>::MIN + 1,
+                _ => rng.next_u64() as $t,
+            }
+        }
+    };
+}
+int_interesting!(i8_i, i8);
+int_interesting!(u8_i, u8);
+int_interesting!(i16_i, i16);
+int_interesting!(u16_i, u16);
+int_interesting!(i32_i, i32);
+int_interesting!(u32_i, u32);
+int_interesting!(i64_i, i64);
+int_interesting!(u64_i, u64);
+
+pub const SCALAR_TYPES: &[VariantTypeId] = &[
+    VariantTypeId::Boolean,
+    VariantTypeId::SByte,
+    VariantTypeId::Byte,
+    VariantTypeId::Int16,
+    VariantTypeId::UInt16,
+    VariantTypeId::Int32,
+    VariantTypeId::UInt32,
+    VariantTypeId::Int64,
+    VariantTypeId::UInt64,
+    VariantTypeId::Float,
+    VariantTypeId::Double,
+    VariantTypeId::String,
+    VariantTypeId::DateTime,
+    VariantTypeId::Guid,
+    VariantTypeId::StatusCode,
+    VariantTypeId::ByteString,
+    VariantTypeId::XmlElement,
+    VariantTypeId::QualifiedName,
+    VariantTypeId::LocalizedText,
+    VariantTypeId::NodeId,
+    VariantTypeId::ExpandedNodeId,
+    VariantTypeId::ExtensionObject,
+    VariantTypeId::Variant,
+    VariantTypeId::DataValue,
+    VariantTypeId::DiagnosticInfo,
+];
+
+/// A scalar of exactly the given type. `depth` bounds nesting through Variant/DataValue/etc.
+pub fn scalar_of(rng: &mut Rng, t: VariantTypeId, depth: u32) -> Variant {
+    match t {
+        VariantTypeId::Empty => Variant::Empty,
+        VariantTypeId::Boolean => Variant::Boolean(rng.bool()),
+        VariantTypeId::SByte => Variant::SByte(i8_i(rng)),
+        VariantTypeId::Byte => Variant::Byte(u8_i(rng)),
+        VariantTypeId::Int16 => Variant::Int16(i16_i(rng)),
+        VariantTypeId::UInt16 => Variant::UInt16(u16_i(rng)),
+        VariantTypeId::Int32 => Variant::Int32(i32_i(rng)),
+        VariantTypeId::UInt32 => Variant::UInt32(u32_i(rng)),
+        VariantTypeId::Int64 => Variant::Int64(i64_i(rng)),
+        VariantTypeId::UInt64 => Variant::UInt64(u64_i(rng)),
+        VariantTypeId::Float => Variant::Float(f32_interesting(rng)),
+        VariantTypeId::Double => Variant::Double(f64_interesting(rng)),
+        VariantTypeId::String => Variant::String(ua_string(rng, 30)),
+        VariantTypeId::DateTime => Variant::DateTime(Box::new(date_time(rng))),
+        VariantTypeId::Guid => Variant::Guid(Box::new(guid(rng))),
+        VariantTypeId::StatusCode => Variant::StatusCode(status_code(rng)),
+        VariantTypeId::ByteString => Variant::ByteString(byte_string(rng, 30)),
+        VariantTypeId::XmlElement => Variant::XmlElement(ua_string(rng, 30)),
+        VariantTypeId::QualifiedName => Variant::QualifiedName(Box::new(qualified_name(rng))),
+        VariantTypeId::LocalizedText => Variant::LocalizedText(Box::new(localized_text(rng))),
+        VariantTypeId::NodeId => Variant::NodeId(Box::new(node_id(rng))),
+        VariantTypeId::ExpandedNodeId => Variant::ExpandedNodeId(Box::new(expanded_node_id(rng))),
+        VariantTypeId::ExtensionObject => {
+            Variant::ExtensionObject(Box::new(extension_object(rng, depth.saturating_sub(1))))
+        }
+        VariantTypeId::Variant => {
+            if depth == 0 {
+                Variant::Variant(Box::new(Variant::Int32(rng.next_u32() as i32)))
+            } else {
+                // a variant inside a variant may not itself be an array per the decoder; keep scalar
+                let inner_t = *rng.pick(SCALAR_TYPES);
+                Variant::Variant(Box::new(scalar_of(rng, inner_t, depth - 1)))
+            }
+        }
+        VariantTypeId::DataValue => {
+            Variant::DataValue(Box::new(data_value(rng, depth.saturating_sub(1).min(1))))
+        }
+        VariantTypeId::DiagnosticInfo => {
+            Variant::DiagnosticInfo(Box::new(diagnostic_info(rng, depth.saturating_sub(1))))
+        }
+        VariantTypeId::Array => Variant::Empty,
+    }
+}
+
+/// Arbitrary variant: scalar, one-dimensional array or multi-dimensional array
+pub fn variant(rng: &mut Rng, depth: u32) -> Variant {
+    let t = if depth == 0 {
+        // no nesting types at the leaves
+        *rng.pick(&SCALAR_TYPES[..21])
+    } else {
+        *rng.pick(SCALAR_TYPES)
+    };
+    match rng.below(10) {
+        0 => Variant::Empty,
+        1..=5 => scalar_of(rng, t, depth),
+        6..=7 => {
+            let n = match rng.below(4) {
+                0 => 0,
+                1 => 1,
+                _ => rng.usize(8),
+            };
+            let values: Vec<Variant> = (0..n).map(|_| scalar_of(rng, t, depth.saturating_sub(1))).collect();
+            Variant::Array(Box::new(Array {
+                value_type: t,
+                values,
+                dimensions: None,
+            }))
+        }
+        _ => {
+            // multi-dimensional with consistent dimensions
+            let rank = 1 + rng.usize(3);
+            let dims: Vec<u32> = (0..rank).map(|_| rng.below(4) as u32).collect();
+            let n: usize = dims.iter().map(|d| *d as usize).product();
+            let values: Vec<Variant> = (0..n).map(|_| scalar_of(rng, t, depth.saturating_sub(1))).collect();
+            Variant::Array(Box::new(Array {
+                value_type: t,
+                values,
+                dimensions: Some(dims),
+            }))
+        }
+    }
+}
+
+/// A `Read` that invents bytes on demand, biased so that structure decoders succeed often:
+/// 4-byte reads (lengths, enums) are mostly small, 1-byte reads (masks) mostly low values.
+/// Everything handed out is recorded.
+pub struct BiasedReader {
+    pub rng: Rng,
+    pub produced: Vec<u8>,
+    pub limit: usize,
+}
+
+impl BiasedReader {
+    pub fn new(rng: Rng, limit: usize) -> Self {
+        BiasedReader {
+            rng,
+            produced: Vec::new(),
+            limit,
+        }
+    }
+}
+
+impl Read for BiasedReader {
+    fn read(&mut self, buf: &mut [u8]) -> std::io::Result<usize> {
+        if self.produced.len() + buf.len() > self.limit {
+            return Ok(0);
+        }
+        let rng = &mut self.rng;
+        match buf.len() {
+            1 => {
+                buf[0] = match rng.below(10) {
+                    0..=5 => rng.below(26) as u8,
+                    6 => rng.below(64) as u8,
+                    7 => 0x80 | rng.below(26) as u8,
+                    8 => 0xC0 | rng.below(26) as u8,
+                    _ => rng.next_u32() as u8,
+                };
+            }
+            4 => {
+                let v: i32 = match rng.below(10) {
+                    0 => -1,
+                    1 => 0,
+                    2..=6 => rng.below(4) as i32,
+                    7 => rng.below(20) as i32,
+                    8 => rng.below(1000) as i32,
+                    _ => rng.next_u32() as i32,
+                };
+                buf.copy_from_slice(&v.to_le_bytes());
+            }
+            8 => {
+                let v: u64 = match rng.below(4) {
+                    0 => 0,
+                    1 => rng.below(1 << 20),
+                    2 => rng.below(DateTime::endtimes_ticks() as u64),
+                    _ => rng.next_u64(),
+                };
+                buf.copy_from_slice(&v.to_le_bytes());
+            }
+            n => {
+                // string / bytestring bodies: printable ascii so that UTF-8 validation passes
+                for b in buf.iter_mut().take(n) {
+                    *b = 0x20 + rng.below(0x5f) as u8;
+                }
+            }
+        }
+        self.produced.extend_from_slice(buf);
+        Ok(buf.len())
+    }
+}
